@@ -24,7 +24,7 @@ SHIMS = {
 PROPS = {
     'C03': dict(
         title='origin map',
-        units=['pt'],
+        units=['pt', 'arms'],
         shims=['A-btree', 'A-str', 'A-path/fs', 'A-arith', 'A-glue'],
         design='DESIGN.md 3/C03',
         technique='contract-based deductive verification (Verus) of the real PreprocessedText/Range code extracted from /repo on every run',
@@ -60,7 +60,7 @@ PROPS['C09'] = dict(
 )
 PROPS['C18'] = dict(
     title='strip_comments',
-    units=['depth', 'wrap'],
+    units=['depth', 'wrap', 'arms'],
     shims=['A-glue'],
     design='DESIGN.md 3/C18',
     technique='contract-based deductive verification (Verus): flag forwarding on the recursion skeleton and at the entry wrappers; arm-guard obligations on the lifted match arms',
@@ -78,6 +78,58 @@ PROPS['C16'] = dict(
     level_text='Deductive proof for all trees: Iter::next/EventIter::next satisfy their one-step stack contracts, from which lemmas show that iteration yields the node first and then its descendants in child order, that the event view is Enter(n) . events(children) . Leave(n) (balanced, nested) and that its Enter projection is the plain iteration; every tuple/Vec/Option/Box/Paren/List conversion yields its components in field order; the derive template enumerates self.nodes / the enum payload and starts iteration at the node itself; unwrap_node!/unwrap_locate! return the first match; get_str_trim spans the first to the last leaf not under a WhiteSpace node.',
     level_note='Assumed: RefNode is an opaque handle with finite height; vstd Vec specs and slice::reverse; the derive templates are verified on one stub struct and one stub enum instance (the template text is the same for all 1242 types); macro transcribers are verified with the immediately-invoked closure replaced by its body.',
     not_covered=['Display/Debug of SyntaxTree', 'impl_ref_node template (RefNode::next / into_iter dispatch per variant)'],
+)
+
+ARMS_NOTE = 'The arms of preprocess_str are verified one by one (rule R-arm); the dispatch loop around them is assumed (A-glue). Callees carry contracts proved in other units (push/merge: pt; Locate::str: getstr; try_into fold: derive) or assumed on their real signature (preprocess_inner, resolve_text_macro_usage, identifier). Grammar invariants (each node has a contiguous leaf inside s, identifiers present) are preconditions.'
+PROPS['C04'] = dict(
+    title='conditional compilation',
+    units=['arms'],
+    shims=['A-glue', 'A-hashmap', 'A-str', 'A-node'],
+    design='DESIGN.md 3/C04',
+    technique='contract-based deductive verification (Verus) of the verbatim IfdefDirective / IfndefDirective arms against an IEEE 22.6 selection spec function, loop invariant over the `elsif chain',
+    level_text='Deductive proof, for every chain length, every define table and every combination of condition outcomes, that on entering `ifdef/`ifndef the arm puts on the skip list the directive keywords, the identifiers and every group except the one IEEE 1800-2017 22.6 selects (first branch whose name is defined, `else if none); table mutations happen only in arms of the same match (un-skipped events).',
+    level_note=ARMS_NOTE + ' Two call sites are genuinely wrong for predefined names in `elsif position and are listed as known findings; the clause for chains without predefined `elsif names must verify.',
+    not_covered=['that the event loop honours the skip list for arbitrary nesting (A-glue + C16)', 'token-for-token equality of the surviving text', 'SkipNodes::push/contains themselves'],
+)
+PROPS['C05'] = dict(
+    title='macro expansion',
+    units=['arms'],
+    shims=['A-glue', 'A-hashmap', 'A-str', 'A-arith'],
+    design='DESIGN.md 3/C05',
+    technique='contract-based deductive verification (Verus) of the verbatim TextMacroUsage arm and of the actual/formal binding block of resolve_text_macro_usage',
+    level_text='Deductive proof that the usage arm pushes the expansion with the origin of the definition, adopts the table that comes back, propagates DefineNotFound/DefineNoArgs/DefineArgNotFound unchanged, suppresses the usage subtree and copies the trailing white space with its own range; and that the binding block maps the i-th formal to the i-th actual, its default when omitted, and reports the three named errors.',
+    level_note=ARMS_NOTE + ' Partial: text-level pasting/stringification (split_text and the replace chain) and argument lexing are not decided.',
+    not_covered=['split_text and the replace chain (`` , `\", line continuations)', 'argument lexing in the parser', 'that the recursive re-preprocessing yields the fully expanded text'],
+)
+PROPS['C06'] = dict(
+    title='pass-through',
+    units=['arms'],
+    shims=['A-glue', 'A-str'],
+    design='DESIGN.md 3/C06',
+    technique='contract-based deductive verification (Verus) of the directive-free emission arms (copy exactly the bytes of their own leaf, identity origin) plus once-only obligations',
+    level_text='Deductive proof that the NotDirective, Comment, StringLiteral and EscapedIdentifier arms append exactly the bytes of the locate they copy and record the identical source range, and that kept-directive arms suppress their trailing white space so nothing is emitted twice.',
+    level_note=ARMS_NOTE + ' Two arms genuinely emit trailing trivia twice (known findings K3, K4, frozen by golden files). Partial: the fixed-point clause and the rejection conditions are not decided.',
+    not_covered=['fixed point of successful runs', 'rejection conditions (unterminated string/comment, lone backslash)', 'that the pp grammar tiles the source (gvc faithful for the pp productions)'],
+)
+PROPS['C10'] = dict(
+    title='include',
+    units=['arms', 'depth'],
+    shims=['A-glue', 'A-path/fs', 'A-hashmap'],
+    design='DESIGN.md 3/C10',
+    technique='contract-based deductive verification (Verus) of the verbatim IncludeCompilerDirective arm incl. the include-path search loop; nested preprocessing as an uninterpreted function of named parameters',
+    level_text='Deductive proof for any number and order of include paths that the file used is the given path when absolute or existing, else the first include path that contains it, else the given path; that the nested run receives the live define table, ignore_include=false, include_depth+1, that its table is adopted and its text/origins merged, that errors are wrapped once in Include, that a same-line item yields IncludeLine, and that the arm fires iff !ignore_include.',
+    level_note=ARMS_NOTE + ' The ghost file system is constant during a call. Partial: file-name extraction is string trimming over uninterpreted functions.',
+    not_covered=['file-name extraction semantics of trim_matches etc.', 'the same-line rule for items AFTER the include (state spread over later events)', 'ignore_include: that a literal directive contributes no tokens'],
+)
+PROPS['C11'] = dict(
+    title='define table',
+    units=['arms'],
+    shims=['A-glue', 'A-hashmap', 'A-str'],
+    design='DESIGN.md 3/C11',
+    technique='contract-based deductive verification (Verus) of the verbatim `define / `undef / `undefineall arms and of the table adoption at include and expansion',
+    level_text='Deductive proof that `undef removes exactly the named entry, `undefineall empties the table, `define X inserts or replaces exactly X with an entry recording the formal names, default texts and body text as written (origin = defining file and body range) unless X is predefined, and that no other arm writes the table except adopting the one returned by an include or an expansion.',
+    level_note=ARMS_NOTE + ' Partial: seeding of SV_COV_* / caller defines (the prologue loops of preprocess_str) and the two-file equivalence are not decided.',
+    not_covered=['prologue of preprocess_str (SV_COV_* seeding, copy of caller defines)', 'equivalence with preprocessing the concatenated files'],
 )
 
 NOT_APPLICABLE = {
